@@ -259,7 +259,28 @@ def run_c20(ctx):
             subp = build(spec, plain=True)
             subp.unit_timedelta = datetime.timedelta(hours=su_h)
             ok_run = rng.random() < 0.85
-            real_simulate(subp, dict(params, absence=A, maxTime=(60 if ok_run else 1), initState=True, initLog=True))
+            # one result in three comes from a backward simulation (mirrored logs and absence steps), also with
+            # automatic tasks performed at absence steps
+            bw = rng.random() < 0.33
+            sub_params = dict(params, absence=A, maxTime=(60 if ok_run else 1), initState=True, initLog=True)
+            sub_params.pop("warmup", None)
+            if bw:
+                sub_params["autoFlag"] = rng.random() < 0.8
+                if rng.random() < 0.8:
+                    # an automatic head task (performed last in the backward run) and absence steps around the END
+                    # of the run: the step at which the run stops can then be an absence step
+                    spec = json.loads(json.dumps(spec))
+                    for tk in spec["tasks"]:
+                        if not tk.get("inputs"):
+                            tk.update(auto=True, auto_rate=1.0)
+                    probe = build(spec, plain=True)
+                    real_simulate(probe, dict(sub_params, absence=[]), backward=True)
+                    T0 = probe.time
+                    A = sorted(set([max(T0 - 1, 0)] + [rng.choice([0, T0, T0 + 1, T0 + 2]) for _ in range(rng.randint(0, 2))]))
+                    sub_params["absence"] = A
+                    subp = build(spec, plain=True)
+                    subp.unit_timedelta = datetime.timedelta(hours=su_h)
+            real_simulate(subp, sub_params, backward=bw)
             path = os.path.join(d, "sub%d.json" % i)
             subp.write_simple_json(path)
             success = subp.status == BaseProjectStatus.FINISHED_SUCCESS
@@ -270,7 +291,7 @@ def run_c20(ctx):
             before = dict(vars(sub))
             n_eval += 1
             case = dict(stream="c20", seed=ctx.seed + 9, index=i, sub_spec=spec, sub_absence=A, sub_unit_h=su_h, parent_unit_h=pu_h,
-                        remove_absence=remove, sub_status=int(subp.status), sub_time=subp.time)
+                        remove_absence=remove, sub_status=int(subp.status), sub_time=subp.time, sub_backward=bw, sub_auto_flag=sub_params["autoFlag"])
             with warnings.catch_warnings(record=True) as wlist:
                 warnings.simplefilter("always")
                 try:
